@@ -8,7 +8,7 @@ NT = set("timed-out-request".split(","))
 
 
 class Eng(cl.CLEngine):
-    MACROS = ["warmup", "timeout", "timeout", "timeout", "partial", "notleader", "noconn", "noconn"]
+    MACROS = ["warmup", "timeout", "timeout", "timeout2", "timeout2", "partial", "notleader", "noconn", "noconn"]
     MACRO_ONE_IN = 8
 
     def nontrivial(self):
